@@ -14,9 +14,19 @@
 //!    the value. Error *messages* are never compared.
 //!
 //! Signatures name the oracle, how it failed (direction, variant name of the error of the rejecting
-//! side) and the battery type, whose name describes its shape / attributes – never the data. The class
-//! of the input (which mutation produced it) is in the detail only: one defect shows under every input
-//! class that happens to reach it.
+//! side with value *kinds* only) and
+//!  * the battery type (whose name describes its shape / attributes) for everything decided on
+//!    instances of the type or on texts printed from them, and
+//!  * the shape class of the type (`derived-plain`, `derived-attr-field`, `derived-header`,
+//!    `derived-body-replaced`, `builtin`) for mutated / foreign inputs: recogniser-level disagreements
+//!    on such inputs hit every type of a shape alike.
+//! Never the data. The class of the input (which mutation produced it) is in the detail only: one
+//! defect shows under every input class that happens to reach it.
+//!
+//! Features that are known to break a representation (Option in a positional body, HashMap in an
+//! attribute, nested Vec in an attribute, `Value` as a replaced body, non-identifier tags, ...) are
+//! isolated in dedicated battery types so that composite types stay clean and one defect yields few
+//! signatures.
 
 mod battery;
 mod gen;
@@ -32,6 +42,7 @@ use std::time::Duration;
 use bytes::{BufMut, BytesMut};
 use common::{json, sanitize_sig, CaseOut, Json, Rng, Session};
 use swimos_form::read::{ExpectedEvent, ReadError};
+use swimos_form::write::StructuralWritable;
 use swimos_model::{BigInt, BigUint, Blob, Text, Timestamp, Value, ValueKind};
 use swimos_msgpack::{read_from_msg_pack, MsgPackInterpreter, MsgPackReadError};
 use swimos_recon::parser::{parse_recognize, ParseError};
@@ -312,6 +323,7 @@ fn roundtrip<T: Specimen>(name: &str, x: T, rng: &mut Rng, out: &mut CaseOut) {
             return;
         }
     };
+    let violations_before_model = out.violations.len();
     let model_back = |api: &str, back: Result<Result<T, ReadError>, String>, v: &Value, out: &mut CaseOut| match back {
         Ok(Ok(y)) if y == x => {}
         Ok(Ok(y)) => out.violation(
@@ -338,6 +350,8 @@ fn roundtrip<T: Specimen>(name: &str, x: T, rng: &mut Rng, out: &mut CaseOut) {
         }
         Err(msg) => panic_violation(out, "into_value", name, &msg, json!({"x": show(&x)})),
     }
+
+    let model_ok = out.violations.len() == violations_before_model;
 
     // (2) Recon. The printed text must denote the model image of x (then `parse_recognize::<T>(text)
     // == x` follows from the model round trip and from the agreement of the two reading paths, both of
@@ -372,12 +386,23 @@ fn roundtrip<T: Specimen>(name: &str, x: T, rng: &mut Rng, out: &mut CaseOut) {
             Some(_) => "typed-print-differs-from-model-print",
             None => "model-print-panics",
         };
+        let paths_agree = matches!(
+            agree(name, name, &text, &format!("own-printed-{printer}"), &r, out),
+            Outcome::BothAccept | Outcome::BothReject
+        );
         match &r.model {
             Ok(m) if *m == v => {
-                // Faithful text: the direct reading gives x back unless one of the other oracles fires.
+                // Faithful text: the direct reading gives x back unless the model round trip or the
+                // agreement of the reading paths fails (both reported on their own).
                 match &r.direct {
                     Ok(y) if *y == x => {}
-                    _ => out.count("faithful-text-but-direct-read-differs"),
+                    _ if model_ok && paths_agree => out.violation(
+                        P,
+                        format!("recon-roundtrip/unexplained/{name}"),
+                        "parse_recognize::<T>(print(x)) != x although the text denotes x.as_value(), the model round trip holds and the reading paths agree",
+                        json!({"x": show(&x), "text": clip(&text), "printer": printer, "direct": match &r.direct { Ok(y) => show(y), Err(e) => Json::String(format!("{e:?}")) }}),
+                    ),
+                    _ => out.count("direct-read-of-printed-text-differs(explained-by-other-oracle)"),
                 }
             }
             Ok(m) => print_findings.push((
@@ -391,7 +416,6 @@ fn roundtrip<T: Specimen>(name: &str, x: T, rng: &mut Rng, out: &mut CaseOut) {
                 json!({"x": show(&x), "text": clip(&text), "err": format!("{e:?}"), "model_print": model_text.as_deref().map(clip)}),
             )),
         }
-        agree(name, name, &text, &format!("own-printed-{printer}"), &r, out);
     }
     print_findings.sort_by(|a, b| a.0.cmp(&b.0));
     let mut i = 0;
@@ -446,6 +470,22 @@ fn roundtrip<T: Specimen>(name: &str, x: T, rng: &mut Rng, out: &mut CaseOut) {
                 ),
             }
         }
+    }
+    // Not a verdict (the statement only asks for write(x) -> read == x): the MessagePack image of the
+    // *model image* read back as T. Counted per type so that the evidence shows where the two differ.
+    out.events += 1;
+    let mut buf = BytesMut::new();
+    let via_model = guard(|| {
+        let mut w = (&mut buf).writer();
+        if v.write_with(MsgPackInterpreter::new(&mut w)).is_err() {
+            return None;
+        }
+        let mut bytes = buf.split().freeze();
+        read_from_msg_pack::<T, _>(&mut bytes).ok()
+    });
+    match via_model {
+        Ok(Some(y)) if y == x => {}
+        _ => out.count(&format!("msgpack-of-model-image-read-as-T-differs/{name}")),
     }
     if rng.chance(1, 200) {
         out.set_sample(json!({"type": name, "x": show(&x), "recon": clip(&sample_text)}));
